@@ -769,6 +769,20 @@ func validSpace(tier string) *space {
 		tn = append(tn, e.Name)
 	}
 	segs = append(segs, list("list-names", "every name in the three Adobe lists", tn))
+	// every Unicode scalar value inside an otherwise valid name (case folding
+	// and Unicode character classes must not widen the alphabet), and the
+	// values below U+3000 also as first and as last character
+	var uni []string
+	for r := rune(0); r <= 0x10FFFF; r++ {
+		if r >= 0xD800 && r <= 0xDFFF {
+			continue
+		}
+		uni = append(uni, "x"+string(r)+"y")
+		if r < 0x3000 {
+			uni = append(uni, string(r)+"x", "x"+string(r))
+		}
+	}
+	segs = append(segs, list("every-scalar-value", "x?y for every Unicode scalar value ?, and ?x, x? for the values below U+3000", uni))
 	return newSpace(segs...)
 }
 
